@@ -323,3 +323,33 @@ Theorem C03_probing_memory_table_invariants : forall buckets n V (t : atable) M,
   (forall k1 k2, over_vocab n V k1 -> over_vocab n V k2 -> hash_key k1 = hash_key k2 -> k1 = k2) ->
   TInv n (pmem_table buckets n V t) M.
 Proof. exact pmem_table_TInv. Qed.
+
+(* ---- observational equivalence at the memory level: the probing memory and the trie memory of the same ARPA model return the same
+   probability for every history and every vocabulary word (both are the ARPA recursion: forgot_prob over the two decoded tables). *)
+From Kenlm Require Import LM.Query.
+Theorem C03_memory_structures_equal_probabilities :
+  forall buckets (array : bool) cfg N V (tp tt : atable) pz M,
+  (2 <= N)%nat -> 0 <= V < 2 ^ 32 -> 0 <= cfg ->
+  (* the probing table and its memory *)
+  TInv N (Defs.alookup tp) M -> NoDup (map fst tp) -> (forall w, Defs.alookup tp [w] <> None <-> Z.of_N w < V) ->
+  (forall k e, Defs.alookup tp k = Some e -> - 2 ^ 24 < e_prob e <= 0 /\ - 2 ^ 24 < e_bo e < 2 ^ 24) ->
+  (forall k e, Defs.alookup tp k = Some e -> length k = N -> e_bo e = 0) ->
+  (forall j, (2 <= j <= N)%nat -> (length (order_entries tp j) < nth (j - 2) buckets 0)%nat) ->
+  (forall k, over_vocab N V k -> hash_key k <> 0) ->
+  (forall k1 k2, over_vocab N V k1 -> over_vocab N V k2 -> hash_key k1 = hash_key k2 -> k1 = k2) ->
+  (* the trie table and its memory *)
+  TInv N (Defs.alookup tt) M -> NoDup (map fst tt) -> (forall w, Defs.alookup tt [w] <> None <-> Z.of_N w < V) ->
+  (forall k e, Defs.alookup tt k = Some e -> - 2 ^ 24 < e_prob e < 2 ^ 24 /\ - 2 ^ 24 < e_bo e < 2 ^ 24) ->
+  (forall k e, Defs.alookup tt k = Some e -> (2 <= length k)%nat -> e_prob e <= 0) ->
+  (forall k e, Defs.alookup tt k = Some e -> length k = N -> e_bo e = 0) ->
+  Z.of_nat (N * length tt) < 2 ^ 57 ->
+  forall ctx w, Z.of_N w < V ->
+  r_prob (fst (full_score_forgot N (pmem_table buckets N V tp) Probing ctx w)) =
+  r_prob (fst (full_score_forgot N (mem_table array cfg N V tt pz) Trie ctx w)).
+Proof.
+  intros buckets array cfg N V tp tt pz M HN HV Hc Ip Np Dp Rp Lp Rm Hz Hi It Nt Dt Rt Gt Lt St ctx w Hw.
+  rewrite (forgot_prob N HN _ M Probing (pmem_table_TInv buckets N V tp M HN Ip Np Dp Rp Lp Rm Hz Hi) ctx w).
+  - rewrite (forgot_prob N HN _ M Trie (mem_table_TInv array cfg N V tt pz M HN HV Hc It Nt Dt Rt Gt Lt St) ctx w); [reflexivity|].
+    apply (T'_none_iff array cfg N V tt pz M HN HV Hc It Nt Dt Rt Gt Lt St). apply Dt. exact Hw.
+  - apply (pmem_none_iff buckets N V tp M HN Ip Np Dp Rp Lp Rm Hz Hi). apply Dp. exact Hw.
+Qed.
